@@ -18,9 +18,13 @@ def sh(cmd, **kw):
 
 def main():
     ids = sys.argv[1:] or sorted(d for d in os.listdir(SEEDED) if os.path.isdir(os.path.join(SEEDED, d)))
-    if sh("git -C /repo status --porcelain").stdout.strip():
-        print("refusing: /repo has uncommitted changes")
+    # work on a scratch worktree so that /repo itself is never touched
+    scratch = os.environ.get("SEEDSCAN_DIR", "/tmp/seedscan_wt")
+    sh(f"git -C /repo worktree remove --force {scratch}")
+    if sh(f"git -C /repo worktree add -q {scratch} HEAD").returncode != 0:
+        print("cannot create the scratch worktree")
         return 2
+    env = dict(os.environ, VERIF_REPO=scratch, VERIF_OUT=os.environ.get("SEEDSCAN_OUT", "/tmp/seedscan_out"))
     summary = {}
     for i in ids:
         d = os.path.join(SEEDED, i)
@@ -29,7 +33,7 @@ def main():
             continue
         meta = json.load(open(os.path.join(d, "meta.json"))) if os.path.exists(os.path.join(d, "meta.json")) else {}
         checks = meta.get("checks") or [i.split("_")[0]]
-        if sh(f"git -C /repo apply {patch}").returncode != 0:
+        if sh(f"git -C {scratch} apply {patch}").returncode != 0:
             summary[i] = "patch does not apply"
             continue
         det = {}
@@ -38,15 +42,16 @@ def main():
                 if not os.path.exists(os.path.join(HERE, "props", f"{c}.py")):
                     det[c] = {"exit": None, "note": "no check yet"}
                     continue
-                r = sh(f"{HERE}/check {c} --tier quick")
+                r = sh(f"{HERE}/check {c} --tier quick", env=env)
                 viol = [l for l in r.stdout.splitlines() if l.startswith("VIOLATION")]
                 det[c] = {"exit": r.returncode, "violations": len(viol), "first": viol[:2], "no_failing_input": sum("no-failing-input-found" in l for l in viol),
                           "summary": [l for l in r.stdout.splitlines() if l.startswith("[")][-1:]}
         finally:
-            sh("git -C /repo checkout -- .")
+            sh(f"git -C {scratch} checkout -- .")
         json.dump(det, open(os.path.join(d, "detect.json"), "w"), indent=1)
         summary[i] = {c: (v.get("exit"), v.get("violations")) for c, v in det.items()}
         print(i, summary[i], flush=True)
+    sh(f"git -C /repo worktree remove --force {scratch}")
     return 0
 
 
